@@ -16,6 +16,7 @@ import BB.Oracle.Worker
 import BB.Oracle.Attempt
 import BB.Oracle.WaitCond
 import BB.Oracle.BufGate
+import BB.Oracle.BufConc
 
 open BB.Oracle
 
@@ -31,7 +32,8 @@ def families : List (String × Fam) := [
   ("worker", WorkerFam.fam),
   ("attempt", AttemptFam.fam),
   ("waitcond", WaitCondFam.fam),
-  ("bufgate", BufGateFam.fam)
+  ("bufgate", BufGateFam.fam),
+  ("bufconc", BufConcFam.fam)
 ]
 
 structure OAcc (σ : Type) where
